@@ -75,6 +75,7 @@ pub fn docs() -> Vec<VarDoc> {
         VarDoc { name: "1-record", header: header_full(), records: recs[..1].to_vec() },
         VarDoc { name: "3-records", header: header_full(), records: recs.clone() },
         VarDoc { name: "large-header", header: header_large(), records: recs[..1].to_vec() },
+        boundary_doc(),
     ]
 }
 
@@ -198,4 +199,71 @@ pub fn doc_log(doc: &VarDoc) -> Vec<String> {
     let mut v = vec![header_key(&doc.header)];
     v.extend(doc.records.iter().map(record_buf_key));
     v
+}
+
+// ---------------------------------------------------------------------------------------------
+// representation boundaries
+
+/// Header of the boundary document: free-form String / Integer / Float INFO and FORMAT keys and
+/// 17 filters, so that every typed BCF value (ID, REF, ALT, INFO string, INFO integer and float
+/// arrays, FORMAT string and integer array, FILTER list) can take an exact length.
+pub fn boundary_header_text() -> String {
+    let mut t = String::from("##fileformat=VCFv4.3\n");
+    t.push_str("##INFO=<ID=XS,Number=1,Type=String,Description=\"A string\">\n");
+    t.push_str("##INFO=<ID=XA,Number=.,Type=Integer,Description=\"Integers\">\n");
+    t.push_str("##INFO=<ID=XF,Number=.,Type=Float,Description=\"Floats\">\n");
+    t.push_str("##FILTER=<ID=PASS,Description=\"All filters passed\">\n");
+    for i in 0..17 {
+        let _ = writeln!(t, "##FILTER=<ID=f{i:02},Description=\"filter {i}\">");
+    }
+    t.push_str("##FORMAT=<ID=GT,Number=1,Type=String,Description=\"Genotype\">\n");
+    t.push_str("##FORMAT=<ID=XS,Number=1,Type=String,Description=\"A string\">\n");
+    t.push_str("##FORMAT=<ID=XI,Number=.,Type=Integer,Description=\"Integers\">\n");
+    t.push_str("##contig=<ID=sq0,length=50>\n##contig=<ID=sq1,length=40>\n");
+    t.push_str("#CHROM\tPOS\tID\tREF\tALT\tQUAL\tFILTER\tINFO\tFORMAT\ts0\ts1\n");
+    t
+}
+
+/// One record in which every variable-length typed value has exactly `len` elements / bytes
+/// (BCF writes a length `>= 15` as descriptor `0xF?` followed by a typed integer).
+pub fn boundary_line(pos: usize, len: usize) -> String {
+    assert!(len >= 1);
+    let letters = |n: usize, alphabet: &[u8]| -> String {
+        (0..n).map(|i| alphabet[(i * 7 + n) % alphabet.len()] as char).collect()
+    };
+    let id = letters(len, b"abcdefghijklmnopqrstuvwxyz0123456789");
+    let reference = letters(len, b"ACGT");
+    let alt = letters(len, b"TGCA");
+    let filters: Vec<String> = (0..len).map(|i| format!("f{i:02}")).collect();
+    let xs = letters(len, b"ABCDEFGHIJKLMNOPQRSTUVWXYZ_");
+    let xa: Vec<String> = (0..len).map(|i| format!("{}", i as i32 * 3 - 7)).collect();
+    let xf: Vec<String> = (0..len).map(|i| format!("{}", i as f32 * 0.5)).collect();
+    let fs = letters(len, b"mnopqrstuvwxyz");
+    let fi: Vec<String> = (0..len).map(|i| format!("{}", 100 + i)).collect();
+    // s1 carries shorter values: the per-sample width of the record is decided by s0
+    format!(
+        "sq0\t{pos}\t{id}\t{reference}\t{alt}\t{}\t{}\tXS={xs};XA={};XF={}\tGT:XS:XI\t0/1:{fs}:{}\t1|1:z:5\n",
+        len,
+        filters.join(";"),
+        xa.join(","),
+        xf.join(","),
+        fi.join(",")
+    )
+}
+
+/// Lengths around the BCF typed-descriptor boundary (15) and the smallest ones.
+pub const BOUNDARY_LENGTHS: [usize; 6] = [1, 2, 14, 15, 16, 17];
+
+pub fn boundary_doc() -> VarDoc {
+    let mut text = boundary_header_text();
+    for (i, len) in BOUNDARY_LENGTHS.iter().enumerate() {
+        text.push_str(&boundary_line(2 + i, *len));
+    }
+    let mut r = vcf::io::Reader::new(text.as_bytes());
+    let header = r.read_header().expect("gdocs: boundary vcf header");
+    let records = r
+        .record_bufs(&header)
+        .collect::<io::Result<Vec<_>>>()
+        .expect("gdocs: boundary vcf records");
+    VarDoc { name: "boundary-typed-lengths", header, records }
 }
